@@ -296,52 +296,66 @@ Section ProjectiveProofs.
     intros m Hm. rewrite Forall_forall in H. apply in_seq. specialize (H m Hm). lia.
   Qed.
 
-  (* membership in the result of one measurement of L on the initial branch *)
-  Lemma measure_initial_In d L (psi : pstate) b :
+  (* the branch that measure_branch produces for the outcome s *)
+  Definition child (L : list nat) (b : pbranch) (s : vec) : pbranch :=
+    let reg := pb_reg A b in
+    let M := remap_modes reg L in
+    let phi' := project (length reg) M s (pb_phi A b) in
+    mkPB A (pb_out A b ++ s) phi' ((pb_scale A b * weight phi') * pb_freq A b)%Q
+         (delete_modes_from_active reg M) (pb_scale A b / (pb_scale A b * weight phi'))%Q.
+
+  Lemma measure_branch_In L b x :
+    In x (measure_branch A nrm L b) <->
+    exists s, In s (outcomes (remap_modes (pb_reg A b) L) (pb_phi A b)) /\ x = child L b s.
+  Proof.
+    unfold measure_branch, child. rewrite in_map_iff.
+    split; intros (s & H1 & H2); exists s; split; auto.
+  Qed.
+
+  Definition init_branch (d : nat) (psi : pstate) : pbranch := mkPB A [] psi 1%Q (seq 0 d) 1%Q.
+
+  Lemma measure_initial_In d L (psi : pstate) x :
     Forall (fun m => m < d) L ->
-    In b (measure_seq [L] (pinitial d psi)) <->
-    exists s, In s (outcomes L psi) /\
-      b = mkPB A s (project d L s psi) ((weight (project d L s psi) / weight psi) * 1)%Q (aux L d).
+    In x (measure_seq [L] (pinitial d psi)) <->
+    exists s, In s (outcomes L psi) /\ x = child L (init_branch d psi) s.
   Proof.
     intros H. unfold ProjectModel.measure_seq, ProjectModel.pinitial, measure. simpl.
-    rewrite app_nil_r. unfold measure_branch. simpl.
-    rewrite remap_seq, delete_seq, seq_length by auto. rewrite in_map_iff.
-    split; intros (s & H1 & H2); exists s; split; auto.
+    rewrite app_nil_r. fold (init_branch d psi). rewrite measure_branch_In. simpl.
+    now rewrite remap_seq by auto.
   Qed.
 
   (* DESIGN theorem 6: sequential = joint.  Every branch obtained by measuring L1 and then L2
      is a branch of the joint measurement of L1 ++ L2 with the same outcome tuple, the same
-     (unnormalised) state, the same register and an equal frequency -- and conversely.
-     L1, L2: any disjoint lists of modes below d, in any order. *)
+     vector, an equal scale (hence the same state), the same register and an equal weight
+     -- and conversely.  L1, L2: any disjoint lists of modes below d, in any order; the
+     state need NOT be normalised. *)
   Definition same_branch (b b' : pbranch) : Prop :=
     pb_out A b = pb_out A b' /\ pb_phi A b = pb_phi A b' /\ (pb_freq A b == pb_freq A b')%Q /\
-    pb_reg A b = pb_reg A b'.
+    pb_reg A b = pb_reg A b' /\ (pb_scale A b == pb_scale A b')%Q.
 
-
-  Lemma two_step_In d L1 L2 (psi : pstate) b :
-    Forall (fun m => m < d) L1 -> incl L2 (aux L1 d) ->
-    In b (measure_seq [L1; L2] (pinitial d psi)) <->
+  Lemma two_step_In d L1 L2 (psi : pstate) x :
+    Forall (fun m => m < d) L1 ->
+    In x (measure_seq [L1; L2] (pinitial d psi)) <->
     exists s1 s2, In s1 (outcomes L1 psi) /\
       In s2 (outcomes (remap_modes (aux L1 d) L2) (project d L1 s1 psi)) /\
-      b = mkPB A (s1 ++ s2)
-               (project (length (aux L1 d)) (remap_modes (aux L1 d) L2) s2 (project d L1 s1 psi))
-               ((weight (project (length (aux L1 d)) (remap_modes (aux L1 d) L2) s2 (project d L1 s1 psi))
-                 / weight (project d L1 s1 psi))
-                * ((weight (project d L1 s1 psi) / weight psi) * 1))%Q
-               (delete_modes_from_active (aux L1 d) (remap_modes (aux L1 d) L2)).
+      x = child L2 (child L1 (init_branch d psi) s1) s2.
   Proof.
-    intros H1 H2.
+    intros H1.
     change (measure_seq [L1; L2] (pinitial d psi))
       with (measure A nrm L2 (measure_seq [L1] (pinitial d psi))).
-    unfold measure. rewrite in_flat_map. split.
+    unfold measure. rewrite in_flat_map.
+    assert (R : forall s1, pb_reg A (child L1 (init_branch d psi) s1) = aux L1 d).
+    { intros s1. simpl. now rewrite remap_seq, delete_seq by auto. }
+    assert (P : forall s1, pb_phi A (child L1 (init_branch d psi) s1) = project d L1 s1 psi).
+    { intros s1. simpl. now rewrite remap_seq, seq_length by auto. }
+    split.
     - intros (b1 & Hb1 & Hb). apply measure_initial_In in Hb1; auto.
-      destruct Hb1 as (s1 & Hs1 & ->). unfold measure_branch in Hb. simpl in Hb.
-      apply in_map_iff in Hb. destruct Hb as (s2 & <- & Hs2). exists s1, s2. auto.
+      destruct Hb1 as (s1 & Hs1 & ->). apply measure_branch_In in Hb.
+      destruct Hb as (s2 & Hs2 & ->). rewrite R, P in Hs2. exists s1, s2. auto.
     - intros (s1 & s2 & Hs1 & Hs2 & ->).
-      exists (mkPB A s1 (project d L1 s1 psi) ((weight (project d L1 s1 psi) / weight psi) * 1)%Q (aux L1 d)).
-      split.
+      exists (child L1 (init_branch d psi) s1). split.
       + apply measure_initial_In; auto. exists s1. auto.
-      + unfold measure_branch. simpl. apply in_map_iff. exists s2. auto.
+      + apply measure_branch_In. exists s2. rewrite R, P. auto.
   Qed.
 
   Lemma outcomes_split d L1 L2 (psi : pstate) s :
@@ -381,26 +395,26 @@ Section ProjectiveProofs.
     { apply Forall_app. split; auto. apply Forall_forall. intros m Hm. apply H2, aux_In in Hm. lia. }
     assert (SB : forall s1 s2, In s1 (outcomes L1 psi) ->
                  In s2 (outcomes (remap_modes (aux L1 d) L2) (project d L1 s1 psi)) ->
-                 same_branch
-                   (mkPB A (s1 ++ s2)
-                      (project (length (aux L1 d)) (remap_modes (aux L1 d) L2) s2 (project d L1 s1 psi))
-                      ((weight (project (length (aux L1 d)) (remap_modes (aux L1 d) L2) s2 (project d L1 s1 psi))
-                        / weight (project d L1 s1 psi))
-                       * ((weight (project d L1 s1 psi) / weight psi) * 1))%Q
-                      (delete_modes_from_active (aux L1 d) (remap_modes (aux L1 d) L2)))
-                   (mkPB A (s1 ++ s2) (project d (L1 ++ L2) (s1 ++ s2) psi)
-                      ((weight (project d (L1 ++ L2) (s1 ++ s2) psi) / weight psi) * 1)%Q
-                      (aux (L1 ++ L2) d))).
+                 same_branch (child L2 (child L1 (init_branch d psi) s1) s2)
+                             (child (L1 ++ L2) (init_branch d psi) (s1 ++ s2))).
     { intros s1 s2 Hs1 Hs2.
       assert (Hl : length s1 = length L1).
       { apply outcomes_In in Hs1. destruct Hs1 as (p & _ & <-). apply select_length. }
-      unfold same_branch. simpl. rewrite project_project by auto. repeat split.
-      - assert (W1 : (0 < weight (project d L1 s1 psi))%Q).
-        { apply weight_pos. now apply positive_project. now apply project_nonempty. }
-        assert (W0 : (0 < weight psi)%Q).
-        { apply weight_pos; auto. intros E. subst psi. apply outcomes_In in Hs1. destruct Hs1 as (p & [] & _). }
-        field. split; intros E; rewrite E in *; now apply Qlt_irrefl in W0 || now apply Qlt_irrefl in W1.
-      - rewrite delete_active_spec by auto. apply filter_aux. }
+      assert (W1 : (0 < weight (project d L1 s1 psi))%Q).
+      { apply weight_pos. now apply positive_project. now apply project_nonempty. }
+      assert (W12 : (0 < weight (project (length (aux L1 d)) (remap_modes (aux L1 d) L2) s2 (project d L1 s1 psi)))%Q).
+      { apply weight_pos. apply positive_project. now apply positive_project. now apply project_nonempty. }
+      unfold same_branch, child. simpl.
+      rewrite !remap_seq, !delete_seq, !seq_length by auto.
+      rewrite <- project_project in * by auto.
+      set (w1 := weight (project d L1 s1 psi)) in *.
+      set (w12 := weight (project (length (aux L1 d)) (remap_modes (aux L1 d) L2) s2 (project d L1 s1 psi))) in *.
+      assert (N1 : ~ (w1 == 0)%Q) by (intros E; rewrite E in W1; now apply Qlt_irrefl in W1).
+      assert (N12 : ~ (w12 == 0)%Q) by (intros E; rewrite E in W12; now apply Qlt_irrefl in W12).
+      split; [reflexivity|]. split; [reflexivity|]. split; [|split].
+      - field. auto.
+      - rewrite delete_active_spec by auto. apply filter_aux.
+      - field. auto. }
     split.
     - intros b Hb. apply two_step_In in Hb; auto. destruct Hb as (s1 & s2 & Hs1 & Hs2 & ->).
       eexists. split; [|apply SB; eauto].
@@ -412,20 +426,32 @@ Section ProjectiveProofs.
       apply two_step_In; auto. exists s1, s2. auto.
   Qed.
 
-  (* the exact weights of one measurement sum to 1 (to |psi|^2 / |psi|^2) *)
-  Theorem exact_weights_sum d L (psi : pstate) :
-    positive psi -> psi <> [] -> Forall (fun m => m < d) L ->
-    (sumQ (map (pb_freq A) (measure_seq [L] (pinitial d psi))) == 1)%Q.
+  (* the weights of the branches of one measurement sum to (squared norm of the measured
+     state) x (weight of the branch): for ANY branch -- unnormalised preparation, state left
+     by a post-selection, anything *)
+  Theorem measure_branch_weights_sum L (b : pbranch) :
+    (sumQ (map (pb_freq A) (measure_branch A nrm L b)) == branch_norm A nrm b * pb_freq A b)%Q.
   Proof.
-    intros P N H. unfold ProjectModel.measure_seq, ProjectModel.pinitial, measure. simpl.
-    rewrite app_nil_r. unfold measure_branch. simpl.
-    rewrite remap_seq, seq_length by auto. rewrite map_map. simpl.
-    pose proof (weight_pos psi P N) as W0.
-    pose proof (weights_sum_norm d L psi) as S.
-    assert (G : forall O, (sumQ (map (fun s => weight (project d L s psi) / weight psi * 1) O)
-                           == fold_right (fun s acc => weight (project d L s psi) + acc) 0 O / weight psi)%Q).
-    { induction O as [|a r IH]; simpl. unfold Qdiv. ring. rewrite IH. field.
-      intros E. rewrite E in W0. now apply Qlt_irrefl in W0. }
-    rewrite G, S. field. intros E. rewrite E in W0. now apply Qlt_irrefl in W0.
+    unfold measure_branch, branch_norm. rewrite map_map. simpl.
+    rewrite <- (weights_sum_norm (length (pb_reg A b)) (remap_modes (pb_reg A b) L) (pb_phi A b)).
+    induction (outcomes (remap_modes (pb_reg A b) L) (pb_phi A b)) as [|s r IH]; simpl.
+    - ring.
+    - rewrite IH. ring.
   Qed.
+
+  (* in particular the exact weights of a measurement of the initial state sum to its squared
+     norm (to 1 only if it is normalised) *)
+  Theorem exact_weights_sum d L (psi : pstate) :
+    (sumQ (map (pb_freq A) (measure_seq [L] (pinitial d psi))) == weight psi)%Q.
+  Proof.
+    unfold ProjectModel.measure_seq, ProjectModel.pinitial, measure. simpl. rewrite app_nil_r.
+    rewrite measure_branch_weights_sum. unfold branch_norm. simpl. ring.
+  Qed.
+
+  (* a post-selection keeps the scale and the weight of the branch: the norm it removes is
+     seen by the next measurement *)
+  Theorem postselect_keeps_scale L counts (b : pbranch) x :
+    In x (postselect_branch A L counts b) ->
+    pb_scale A x = pb_scale A b /\ pb_freq A x = pb_freq A b /\ pb_out A x = pb_out A b.
+  Proof. intros [<-|[]]. simpl. auto. Qed.
 End ProjectiveProofs.
